@@ -84,6 +84,9 @@ package triple
 
 // tstr(t): the printed form of a triple (Triple.String); its relation to Parse is the subject of C05.
 //@ spec func tstr(t *Triple) String
+// The printed form is never empty (it is "%s\t%s\t%s": it contains two tab characters).
+//@ props C02 C09 C07
+//@ axiom tstr-non-empty: forall t *Triple :: {tstr(t)} tstr(t) != ""
 //@ props C05
 //@ func (t *Triple) String
 //@   trusted printed form; round trip with Parse is the subject of C05
